@@ -1,5 +1,8 @@
 """C10 — compiled kernels never access memory outside their arrays.
-Proof gate: Properties/C10.v (safety halves of the index-level kernel models).  Correspondence for those safety
+Proof gate: Properties/C10.v and every Properties/C10_*.v (safety halves of the index-level kernel models;
+C10_idx.v: checked-access models of em_update_matrix, window_at_index, the kernels, the radius tables and the token
+driver loop, whose own correspondence — direct kernel calls in the three modes vs the models evaluated in Coq — is
+harness/c10_idx.py, started below in parallel with the zoo).  End-to-end correspondence for the safety
 theorems: every zoo case (estimators steered to kernel edges: length-0/1 sequences and strings, radii larger than the
 sequence, pruned EM cells, tiny buffers, unseen token ids) and the distance functions are executed three times —
 normal compiled execution, NUMBA_BOUNDSCHECK=1 and NUMBA_DISABLE_JIT=1 — and must raise no IndexError /
@@ -7,6 +10,7 @@ UnboundLocalError and return the same result in all three modes.  A dead child i
 import os
 from . import common as C
 from . import zoo_common as Z
+from . import c10_idx as IDX
 
 MODES = [("compiled", {}), ("boundscheck", {"NUMBA_BOUNDSCHECK": "1"}), ("interpreted", {"NUMBA_DISABLE_JIT": "1"})]
 MEMORY_ERRORS = ("IndexError", "UnboundLocalError", "SystemError")
@@ -33,12 +37,18 @@ def run(ctx, replay=None):
     extra = sorted(os.path.basename(p)[:-2] for p in glob.glob(os.path.join(C.COQ, "theories", "Properties", "C10_*.v")))
     C.run_gate(ctx, extra_props=extra)
     per = 3 if ctx.quick else 20
-    groups = [[tuple(replay["case"])]] if replay else Z.make_groups(ctx, per, light_factor=2 if ctx.quick else 1)
+    idx_replay = replay if replay and str(replay.get("stage", "")).startswith("idx") else None
+    if idx_replay:
+        groups = []
+    else:
+        groups = [[tuple(replay["case"])]] if replay else Z.make_groups(ctx, per, light_factor=2 if ctx.quick else 1)
     # tiny accumulator buffers for the co-occurrence family are reached through coo_initial_memory in the zoo
     by_mode = {}
     from concurrent.futures import ThreadPoolExecutor
-    with ThreadPoolExecutor(max_workers=3) as ex:
+    with ThreadPoolExecutor(max_workers=8) as ex:
         futs = {m: ex.submit(Z.run_groups, groups, env, 3000, 5) for m, env in MODES}
+        # index-level correspondence (Properties/C10_idx.v): direct kernel calls in the three modes + models in Coq
+        idx = IDX.start(ctx, ex, idx_replay) if (idx_replay or not replay) else None
         for m in futs:
             by_mode[m] = futs[m].result()
     ctx.coverage["rule"] = ("zoo case = (estimator | distances, seed) executed in three modes; non-trivial = compiled run "
@@ -102,5 +112,7 @@ def run(ctx, replay=None):
                                    {"stage": "oracle", "mode": m, "case": [name, seed], "params": base.get("params"),
                                     "compiled": str(a)[:400], m: str(b)[:400]})
     ctx.coverage["oracle"] = {"mode_comparisons": n_cmp, "modes": [m for m, _ in MODES]}
+    if idx is not None:
+        IDX.finish(ctx, idx)
     C.gate_violation(ctx)
     return ctx.finish("proof")
